@@ -84,6 +84,8 @@ class Check:
     # ------------------------------------------------------------------ harness exploration
     def run(self, label, mod, cls, kw, time_cap=None, path_cap=None, required_witnesses=()):
         if self.args.only and self.args.only not in label: return None
+        if not self.gate_ok():
+            self.fallback(label, mod, cls, kw); return None
         tc = time_cap or (600 if self.tier == 'quick' else 900)          # guards only: configurations are sized to finish far below them (wall time varies 2-3x on a loaded host)
         pc = path_cap or (60000 if self.tier == 'quick' else 4000000)
         kw = dict(kw); kw.setdefault('sample_rate', 0.01 if self.tier == 'quick' else 0.001)
@@ -95,6 +97,7 @@ class Check:
             self.inconclusive.append('%s: exploration stopped at a cap (%d paths, %.0fs); %d prefixes unexplored' % (label, r['paths'], r['wall_s'], r.get('unexplored_prefixes', 0)))
         if r['inconclusive_n']:
             self.inconclusive.append('%s: %d paths inconclusive, e.g. %s' % (label, r['inconclusive_n'], r['inconclusive'][:2]))
+            if not r['violations']: self.fallback(label, mod, cls, kw)
         if r.get('di_broken'):
             self.notes.append('%s: the code inspects the characters of element/attribute names; the data-independence argument does not apply, the result is relative to the name pool' % label)
         if r.get('probe_splits'):
@@ -123,6 +126,39 @@ class Check:
         rep['solver'] = r['stats']; rep['functions'] = r['called']; rep['cvc5_second_opinion'] = r.get('cvc5', {})
         self.harness_reports.append(rep)
         return r
+    def fallback(self, label, mod, cls, kw, n=None):
+        """The executor could not decide this harness on the current tree (unmodelled construct, gate mismatch, cap): as a SUPPLEMENT, inputs of the
+        harness's input space are enumerated with the solver (models of its preconditions) and run through the natively compiled library, judged by the
+        same oracle the replay uses. This is concrete execution, not a solver verdict; it can only add violations (each is a native run), never a pass."""
+        n = n or (150 if self.tier == 'quick' else 600)
+        try:
+            h, m = H.local_harness(self.ast, mod, cls, kw, self.seed)
+            if not hasattr(h, 'native_violation'): return
+            found = 0; ran = 0
+            for a in H.sample_assignments(h, n, self.seed):
+                try: confirmed, detail = h.native_violation(a, self.replay)
+                except Exception: continue
+                ran += 1
+                if confirmed:
+                    conc = h.concretise(a)
+                    v = {'label': 'native fallback: ' + str((detail or {}).get('failed', (detail or {}).get('problems', (detail or {}).get('why', 'oracle violated'))))[:160], 'assignment': a}
+                    role = h.role_of(v, conc, detail) if hasattr(h, 'role_of') else None
+                    if hasattr(h, 'confirm_role'):
+                        role = (detail.get('roles') or [role])[0]
+                    kf = self.match_known(role, conc, detail)
+                    if kf is not None:
+                        if kf['id'] not in [k['id'] for k in self.known_hits]: self.known_hits.append(dict(kf, example=conc))
+                        continue
+                    found += 1
+                    if found <= 2:
+                        self.n_viol_files += 1
+                        path = os.path.join(EVID, 'replay', '%s-%d.json' % (self.prop, self.n_viol_files))
+                        json.dump({'property': self.prop, 'harness': label, 'module': mod, 'class': cls, 'kw': kw, 'label': v['label'], 'assignment': a, 'input': conc, 'native': detail, 'role': role, 'found_by': 'native fallback'}, open(path, 'w'), indent=1, default=str)
+                        self.violations.append({'label': v['label'], 'replay': path, 'input': conc, 'role': role})
+            self.extra['native_fallback_runs'] = self.extra.get('native_fallback_runs', 0) + ran
+            self.notes.append('%s: symbolic execution was inconclusive on this tree; %d solver-enumerated inputs were run natively instead (%d violate the oracle)' % (label, ran, found))
+        except Exception as e:
+            self.notes.append('%s: native fallback failed: %r' % (label, e))
     def validate_sample(self, h, s):
         if hasattr(h, 'validate_sample'): return h.validate_sample(s, self.replay)
         conc = h.concretise(s['assignment'])
